@@ -8,7 +8,7 @@ from vv.core import Family, Result, call, exc_kind, exc_detail
 RULE = ("Hypothesis draws a dimension 1-64 and vectors whose entries are 0 or in [1e-3, 1e3] (positive total mass), in five relations: "
         "independent, proportional (y = c*x, c in [1e-3, 1e3]), disjoint supports, single non-zero entry, equal; plus a third vector "
         "for the triangle inequality and a sparse encoding (sorted unique int32 indices, float32 or float64 data, optional explicit "
-        "zeros). Oracles: finiteness, >= -1e-12, symmetry 1e-9, d(x, cx) <= 1e-6, range [0, 1] for hellinger/TV, triangle inequality "
+        "zeros); in half of the cases the same array objects are handed to every call of the case (a pairwise loop over stored vectors), in the other half a fresh copy per call. Oracles: finiteness, >= -1e-12, symmetry 1e-9, d(x, cx) <= 1e-6, range [0, 1] for hellinger/TV, triangle inequality "
         "(slack 1e-6), agreement with float64 numpy formulas written from the definitions, sparse vs dense on the densified vectors "
         "(1e-5 on squared Hellinger / TV / JS / KL), sparse_sum/diff/mul vs dense arithmetic in indices and values. Non-trivial: both "
         "vectors have >= 2 non-zeros and are not identical; distinct by SHA-1 of the case.")
@@ -77,7 +77,9 @@ def cases(draw, tier):
             y = [v if not m else 0.0 for v, m in zip(vals, mask)]
     z = draw(vec(n))
     return {"kind": kind, "x": x, "y": y, "c": c, "z": z,
-            "f32": draw(st.booleans()), "explicit_zeros": draw(st.booleans())}
+            "f32": draw(st.booleans()), "explicit_zeros": draw(st.booleans()),
+            # the same array objects are handed to every call (a pairwise loop over stored vectors) or a fresh copy per call
+            "reuse": draw(st.booleans())}
 
 
 # ---------------------------------------------------------------------------------------------- reference
@@ -122,6 +124,10 @@ def check(case):
     z = np.array(case["z"], dtype=np.float64)
     kind = case["kind"]
     n = x.shape[0]
+    reuse = bool(case.get("reuse"))
+    arg = (lambda a: a) if reuse else (lambda a: a.copy())
+    x0, y0 = x.copy(), y.copy()
+    r.label("arrays:" + ("shared" if reuse else "copied"))
     r.label("kind:" + kind, "dim:%s" % ("1" if n == 1 else "2-8" if n <= 8 else "9+"))
     r.nontrivial = (x != 0).sum() >= 2 and (y != 0).sum() >= 2 and not np.array_equal(x, y)
     funcs = {
@@ -136,8 +142,8 @@ def check(case):
     val = {}
     for name, f in funcs.items():
         site = "distances." + name
-        s, v = call(f, x.copy(), y.copy())
-        s2, v2 = call(f, y.copy(), x.copy())
+        s, v = call(f, arg(x), arg(y))
+        s2, v2 = call(f, arg(y), arg(x))
         if s == "exc" or s2 == "exc":
             e = v if s == "exc" else v2
             r.fail(exc_kind(e), site, exc_detail(e))
@@ -173,8 +179,8 @@ def check(case):
         if name not in val:
             continue
         f = funcs[name]
-        s1, a = call(f, x.copy(), z.copy())
-        s2, b = call(f, z.copy(), y.copy())
+        s1, a = call(f, arg(x), arg(z))
+        s2, b = call(f, arg(z), arg(y))
         if s1 == "ok" and s2 == "ok" and math.isfinite(float(a)) and math.isfinite(float(b)):
             if val[name] > float(a) + float(b) + 1e-6:
                 r.fail("triangle", "distances." + name, "d(x,y)=%r > d(x,z)+d(z,y)=%r" % (val[name], float(a) + float(b)))
@@ -183,8 +189,8 @@ def check(case):
     # sparse vs dense
     f32, ez = case["f32"], case["explicit_zeros"]
     r.label("sparse:%s%s" % ("f32" if f32 else "f64", "+zeros" if ez else ""))
-    i1, d1 = sparse_of(np, x, f32, ez)
-    i2, d2 = sparse_of(np, y, f32, ez)
+    i1, d1 = sparse_of(np, x0, f32, ez)
+    i2, d2 = sparse_of(np, y0, f32, ez)
     xd = np.zeros(n); xd[i1] = d1.astype(np.float64)
     yd = np.zeros(n); yd[i2] = d2.astype(np.float64)
     sref = ref_values(np, xd, yd)
@@ -198,7 +204,7 @@ def check(case):
     }
     for name, (f, key) in pairs.items():
         site = "distances." + name
-        s, v = call(f, i1.copy(), d1.copy(), i2.copy(), d2.copy())
+        s, v = call(f, arg(i1), arg(d1), arg(i2), arg(d2))
         if s == "exc":
             r.fail(exc_kind(v), site, exc_detail(v))
             continue
@@ -218,7 +224,7 @@ def check(case):
     for name, f, dense in (("sparse_sum", d.sparse_sum, xd + yd), ("sparse_diff", d.sparse_diff, xd - yd),
                            ("sparse_mul", d.sparse_mul, xd * yd)):
         site = "distances." + name
-        s, out = call(f, i1.copy(), d1.copy(), i2.copy(), d2.copy())
+        s, out = call(f, arg(i1), arg(d1), arg(i2), arg(d2))
         if s == "exc":
             r.fail(exc_kind(out), site, exc_detail(out))
             continue
